@@ -6,8 +6,12 @@
 (declare-datatypes ((Event 0)) (((mkEvent (ev_nr (_ BitVec 32)) (ev_arch (_ BitVec 32)) (ev_args (Array (_ BitVec 32) (_ BitVec 64)))))))
 (declare-const ev Event)
 (declare-const le Bool)
+; accumulator with which a separately assembled block is entered (arbitrary)
+(declare-const A0 (_ BitVec 32))
 ; S-fwd: state of the single-pass forward interpreter of a label-level program
 (declare-datatypes ((GState 0)) (((mkG (g_live Bool) (g_A (_ BitVec 32)) (g_done Bool) (g_rval (_ BitVec 32))
                                        (g_taken (Array Int Bool)) (g_tA (Array Int (_ BitVec 32)))))))
 ; outcome of running a closed block: return a value, or fall off its end with accumulator A
 (declare-datatypes ((Outcome 0)) (((Ret (ret_val (_ BitVec 32))) (Fall (fall_A (_ BitVec 32))) (Stuck))))
+; accumulator at the start of the whole filter (arbitrary; the kernel starts with 0)
+(declare-const Astart (_ BitVec 32))
